@@ -105,11 +105,11 @@ def rescheduleAll (s : State κ τ) (e : Env) : List Nat → Except PyErr (State
     rescheduleAll s' e' t
 
 /-- the initial workload of `schedule()`: one unit for every node whose collection is registered
-    (a replacement that is still collecting is skipped) -/
+    (a replacement that is still collecting is skipped, and so is a node that is already down) -/
 def assignAll (s : State κ τ) (e : Env) : List Nat → Except PyErr (State κ τ × Env)
   | [] => .ok (s, e)
   | n :: t =>
-    if !s.registered.contains n then assignAll s e t
+    if !s.registered.contains n || e.flags.shuttingDown n then assignAll s e t      -- still collecting, or already down
     else do
       let (s', e') ← assignWorkUnit s e n
       assignAll s' e' t
